@@ -52,6 +52,7 @@ type RunResult struct {
 	CrossN      int               `json:"cross_checked"`
 	CrossBad    []string          `json:"cross_disagreements,omitempty"`
 	Flags       []string          `json:"flags,omitempty"`
+	Skipped     int               `json:"assertions_of_other_properties_skipped"`
 }
 
 type multiFlag []string
@@ -151,6 +152,7 @@ func cmdRun(args []string) int {
 	cross := fs.Int("cross", 0, "replay up to N queries on the other solver")
 	crossBudget := fs.Int("cross-budget", 40, "seconds")
 	verbose := fs.Bool("v", false, "")
+	propID := fs.String("prop", "", "run on behalf of this property: assertions labelled for other properties only are skipped")
 	var flags multiFlag
 	fs.Var(&flags, "flag", "harness flag (verifFlag(name) is true)")
 	fs.Parse(args)
@@ -162,6 +164,7 @@ func cmdRun(args []string) int {
 	}
 
 	res := &RunResult{Entry: *entry, Pkg: *dir, Status: "ok", Solver: *solver, Logic: *logic, Unroll: *unroll, Flags: flags}
+	runProp = *propID
 	code := runEntry(res, *dir, *hdir, *entry, *smtlog, *unroll, *cross, flags)
 	b, _ := json.MarshalIndent(res, "", " ")
 	if *out != "" {
@@ -208,6 +211,8 @@ func cmdRun(args []string) int {
 	}
 	return code
 }
+
+var runProp string
 
 func loadKnownSpecs() []KnownSpec {
 	b, err := os.ReadFile(filepath.Join(verifRoot(), "known_findings.json"))
@@ -280,6 +285,7 @@ func runEntry(res *RunResult, dir, hdir, entry, smtlog string, unroll, cross int
 	defer in.solver.Close()
 	in.maxUnroll = unroll
 	in.entry = entry
+	in.prop = runProp
 	in.knownSpecs = loadKnownSpecs()
 	in.knownCond = map[string]*Term{}
 	in.flags = map[string]bool{}
@@ -375,6 +381,7 @@ func runEntry(res *RunResult, dir, hdir, entry, smtlog string, unroll, cross int
 	res.ExecS = time.Since(t1).Seconds()
 	res.Blocks, res.Merges, res.Instrs = in.blocks, in.merges, in.instrs
 	res.Obligations, res.Discharged = in.obligations, in.discharged
+	res.Skipped = in.skipped
 	s := in.solver
 	res.Queries, res.Sat, res.Unsat, res.Unknown, res.Fallback, res.Asserts = s.Queries, s.Sat, s.Unsat, s.Unknown, s.Fallback, s.Asserts
 	res.SolverS, res.FallbackS = s.Time.Seconds(), s.FbTime.Seconds()
